@@ -1,5 +1,5 @@
 /-
-  SimVerif.Lemmas.NetRun — the registry / forwarder invariant `RInv` of the open system
+  SimVerif.Lemmas.NetRun — the registry / forwarder invariant `RegInv` of the open system
   `NS` (SimVerif/NetSys.lean) and its preservation by every label.
 -/
 import SimVerif.Lemmas.NetInv
@@ -9,7 +9,7 @@ set_option linter.unusedVariables false
 
 namespace SimVerif
 
-structure RInvN (n : NetSt) (att : List String) : Prop where
+structure RegInvN (n : NetSt) (att : List String) : Prop where
   udp  : PInv n.reg.udp n.ub []
   tcp  : PInv n.reg.tcp n.tb att
   fwd  : FInv n.fwdTarget n.fwds.length n.uf n.tf
@@ -78,8 +78,8 @@ theorem ft_same {n n' : NetSt} (h : ∀ g, n'.fwdTarget g = n.fwdTarget g) : n'.
 
 /-! ### close -/
 
-theorem RInvN.of_closeEff {n n' : NetSt} {att : List String} {name : String}
-    (h : RInvN n att) (e : CloseEff n n' name) : RInvN n' (att.filter (· != name)) := by
+theorem RegInvN.of_closeEff {n n' : NetSt} {att : List String} {name : String}
+    (h : RegInvN n att) (e : CloseEff n n' name) : RegInvN n' (att.filter (· != name)) := by
   have hu := ub_uf_same (uv_of_udps e.udps)
   cases hv : n.tv name with
   | none =>
@@ -125,7 +125,7 @@ theorem RInvN.of_closeEff {n n' : NetSt} {att : List String} {name : String}
 
 /-! ### changes the registry cannot see -/
 
-theorem RInvN.of_tframe {n n' : NetSt} {att : List String} (h : RInvN n att) (f : TFrame n n') : RInvN n' att := by
+theorem RegInvN.of_tframe {n n' : NetSt} {att : List String} (h : RegInvN n att) (f : TFrame n n') : RegInvN n' att := by
   have hu := ub_uf_same (uv_of_udps f.udps)
   have ht := tb_tf_same f.tv
   have hft : n'.fwdTarget = n.fwdTarget := ft_same f.fwdTarget
@@ -138,8 +138,8 @@ theorem RInvN.of_tframe {n n' : NetSt} {att : List String} (h : RInvN n att) (f 
 
 /-! ### destroy -/
 
-theorem RInvN.of_destroyEff {n n' : NetSt} {att : List String} {name : String}
-    (h : RInvN n att) (e : DestroyEff n n' name) : RInvN n' (att.filter (· != name)) := by
+theorem RegInvN.of_destroyEff {n n' : NetSt} {att : List String} {name : String}
+    (h : RegInvN n att) (e : DestroyEff n n' name) : RegInvN n' (att.filter (· != name)) := by
   have hu := ub_uf_same (uv_of_udps e.udps)
   cases hv : n.tv name with
   | none =>
@@ -182,9 +182,9 @@ theorem RInvN.of_destroyEff {n n' : NetSt} {att : List String} {name : String}
 
 /-! ### open (after the close) -/
 
-theorem RInvN.of_openEff {m m' : NetSt} {att : List String} {name : String}
-    (h : RInvN m att) (e : OpenEff m m' name)
-    (hc : m.tv name = none ∨ m.tv name = some (false, {}, none)) : RInvN m' att := by
+theorem RegInvN.of_openEff {m m' : NetSt} {att : List String} {name : String}
+    (h : RegInvN m att) (e : OpenEff m m' name)
+    (hc : m.tv name = none ∨ m.tv name = some (false, {}, none)) : RegInvN m' att := by
   have hu := ub_uf_same (uv_of_udps e.udps)
   rcases hc with hv | hv
   · have htv : ∀ x, m'.tv x = m.tv x := by
@@ -218,8 +218,8 @@ theorem RInvN.of_openEff {m m' : NetSt} {att : List String} {name : String}
 theorem tv_of_tcps {n n' : NetSt} (h : ∀ x, n'.tcp? x = n.tcp? x) (x : String) : n'.tv x = n.tv x := by
   simp [NetSt.tv, h]
 
-theorem RInvN.of_closeEffU {n n' : NetSt} {att : List String} {name : String}
-    (h : RInvN n att) (e : CloseEffU n n' name) : RInvN n' att := by
+theorem RegInvN.of_closeEffU {n n' : NetSt} {att : List String} {name : String}
+    (h : RegInvN n att) (e : CloseEffU n n' name) : RegInvN n' att := by
   have ht := tb_tf_same (tv_of_tcps e.tcps)
   cases hv : n.uv name with
   | none =>
@@ -254,8 +254,8 @@ theorem RInvN.of_closeEffU {n n' : NetSt} {att : List String} {name : String}
     · rw [e.port]; exact h.port
     · rw [e.cfg]; exact h.cfg
 
-theorem RInvN.of_destroyEffU {n n' : NetSt} {att : List String} {name : String}
-    (h : RInvN n att) (e : DestroyEffU n n' name) : RInvN n' att := by
+theorem RegInvN.of_destroyEffU {n n' : NetSt} {att : List String} {name : String}
+    (h : RegInvN n att) (e : DestroyEffU n n' name) : RegInvN n' att := by
   have ht := tb_tf_same (tv_of_tcps e.tcps)
   cases hv : n.uv name with
   | none =>
@@ -288,9 +288,9 @@ theorem RInvN.of_destroyEffU {n n' : NetSt} {att : List String} {name : String}
     · rw [e.port]; exact h.port
     · rw [e.cfg]; exact h.cfg
 
-theorem RInvN.of_openEffU {m m' : NetSt} {att : List String} {name : String}
-    (h : RInvN m att) (e : OpenEffU m m' name)
-    (hc : m.uv name = none ∨ m.uv name = some (false, {}, none)) : RInvN m' att := by
+theorem RegInvN.of_openEffU {m m' : NetSt} {att : List String} {name : String}
+    (h : RegInvN m att) (e : OpenEffU m m' name)
+    (hc : m.uv name = none ∨ m.uv name = some (false, {}, none)) : RegInvN m' att := by
   have ht := tb_tf_same (tv_of_tcps e.tcps)
   rcases hc with hv | hv
   · have huv : ∀ x, m'.uv x = m.uv x := by
@@ -337,12 +337,12 @@ theorem uv_some_of_udp? {n : NetSt} {name : String} {u : UdpSock} (h : n.udp? na
     n.uv name = some (u.isOpen, u.bound, u.fwd) := by simp [NetSt.uv, h, UdpSock.view]
 
 /-- the registry half of a bind (explicit or implicit) on an open, unbound TCP object -/
-theorem RInvN.bindT {n : NetSt} {att : List String} (h : RInvN n att) (name : String) (s : TcpSock)
+theorem RegInvN.bindT {n : NetSt} {att : List String} (h : RegInvN n att) (name : String) (s : TcpSock)
     (ep1 : Ep) (node : String) (tbl : List (Ep × String)) (np : Nat) (r : Except Ec Ep)
     (hs : n.tcp? name = some s) (ho : s.isOpen = true) (hb : s.bound.isDefault = true)
     (hip : ep1.addr ∈ n.cfg.ipsOf node)
     (hsb : simBind n.reg.tcp n.reg.nextPort name ep1 = (tbl, np, r)) :
-    RInvN (match r with
+    RegInvN (match r with
       | .error _ => { n with reg := { n.reg with tcp := tbl, nextPort := np } }
       | .ok ep2 => ({ n with reg := { n.reg with tcp := tbl, nextPort := np } }).setTcp name { s with bound := ep2 }) att := by
   have hcnt := simBind_counter n.reg.tcp n.reg.nextPort name ep1 h.port
@@ -383,12 +383,12 @@ theorem RInvN.bindT {n : NetSt} {att : List String} (h : RInvN n att) (name : St
       rw [this]
       exact h.fwd
 
-theorem RInvN.bindU {n : NetSt} {att : List String} (h : RInvN n att) (name : String) (u : UdpSock)
+theorem RegInvN.bindU {n : NetSt} {att : List String} (h : RegInvN n att) (name : String) (u : UdpSock)
     (ep1 : Ep) (node : String) (tbl : List (Ep × String)) (np : Nat) (r : Except Ec Ep)
     (hs : n.udp? name = some u) (ho : u.isOpen = true) (hb : u.bound.isDefault = true)
     (hip : ep1.addr ∈ n.cfg.ipsOf node)
     (hsb : simBind n.reg.udp n.reg.nextPort name ep1 = (tbl, np, r)) :
-    RInvN (match r with
+    RegInvN (match r with
       | .error _ => { n with reg := { n.reg with udp := tbl, nextPort := np } }
       | .ok ep2 => ({ n with reg := { n.reg with udp := tbl, nextPort := np } }).setUdp name { u with bound := ep2 }) att := by
   have hcnt := simBind_counter n.reg.udp n.reg.nextPort name ep1 h.port
@@ -430,8 +430,8 @@ theorem RInvN.bindU {n : NetSt} {att : List String} (h : RInvN n att) (name : St
       exact h.fwd
 
 
-theorem RInvN.udpBind {n : NetSt} {att : List String} (h : RInvN n att) (name : String) (ep : Ep) :
-    RInvN (n.udpBind name ep).1 att := by
+theorem RegInvN.udpBind {n : NetSt} {att : List String} (h : RegInvN n att) (name : String) (ep : Ep) :
+    RegInvN (n.udpBind name ep).1 att := by
   by_cases hp : ∃ u ep1, n.udpBindPre name ep u ep1
   · obtain ⟨u, ep1, hpre⟩ := hp
     rw [udpBind_pre n name ep u ep1 hpre]
@@ -441,8 +441,8 @@ theorem RInvN.udpBind {n : NetSt} {att : List String} (h : RInvN n att) (name : 
     cases r <;> exact this
   · rw [udpBind_nopre n name ep hp]; exact h
 
-theorem RInvN.tcpBind {n : NetSt} {att : List String} (h : RInvN n att) (name : String) (ep : Ep) :
-    RInvN (n.tcpBind name ep).1 att := by
+theorem RegInvN.tcpBind {n : NetSt} {att : List String} (h : RegInvN n att) (name : String) (ep : Ep) :
+    RegInvN (n.tcpBind name ep).1 att := by
   by_cases hp : ∃ s ep1, n.tcpBindPre name ep s ep1
   · obtain ⟨s, ep1, hpre⟩ := hp
     rw [tcpBind_pre n name ep s ep1 hpre]
@@ -453,11 +453,11 @@ theorem RInvN.tcpBind {n : NetSt} {att : List String} (h : RInvN n att) (name : 
   · rw [tcpBind_nopre n name ep hp]; exact h
 
 
-theorem RInvN.tcpClose {n : NetSt} {att : List String} (h : RInvN n att) (now : Int) (name : String) :
-    RInvN (n.tcpClose now name).1 (att.filter (· != name)) := h.of_closeEff (tcpClose_eff n now name)
+theorem RegInvN.tcpClose {n : NetSt} {att : List String} (h : RegInvN n att) (now : Int) (name : String) :
+    RegInvN (n.tcpClose now name).1 (att.filter (· != name)) := h.of_closeEff (tcpClose_eff n now name)
 
-theorem RInvN.tcpOpen {n : NetSt} {att : List String} (h : RInvN n att) (now : Int) (name : String) (v4 : Bool) :
-    RInvN (n.tcpOpen now name v4).1 (att.filter (· != name)) := by
+theorem RegInvN.tcpOpen {n : NetSt} {att : List String} (h : RegInvN n att) (now : Int) (name : String) (v4 : Bool) :
+    RegInvN (n.tcpOpen now name v4).1 (att.filter (· != name)) := by
   rw [tcpOpen_nf]
   exact (h.tcpClose now name).of_openEff (tcpOpen2_eff _ name v4) (tcpClose_eff n now name).closed
 
@@ -472,7 +472,7 @@ theorem tcpOpen_isOpen (n : NetSt) (now : Int) (name : String) (v4 : Bool) (s : 
   | some v => rw [hv] at e; simp at e; exact e.1
 
 /-- a closed object is not among the attached ones -/
-theorem RInvN.att_filter_closed {n : NetSt} {att : List String} (h : RInvN n att) (name : String)
+theorem RegInvN.att_filter_closed {n : NetSt} {att : List String} (h : RegInvN n att) (name : String)
     (s : TcpSock) (hs : n.tcp? name = some s) (hc : s.isOpen = false) :
     ∀ x, x ∈ att ↔ x ∈ att.filter (· != name) := by
   intro x
@@ -486,9 +486,9 @@ theorem RInvN.att_filter_closed {n : NetSt} {att : List String} (h : RInvN n att
     simp [hc] at h1
   · exact fun hx => hx.1
 
-theorem RInvN.tcpConnectBind {m : NetSt} {att : List String} (h : RInvN m att) (name : String) (s : TcpSock)
+theorem RegInvN.tcpConnectBind {m : NetSt} {att : List String} (h : RegInvN m att) (name : String) (s : TcpSock)
     (target : Ep) (hs : m.tcp? name = some s) (ho : s.isOpen = true) :
-    RInvN (m.tcpConnectBind name s target).1 att := by
+    RegInvN (m.tcpConnectBind name s target).1 att := by
   unfold NetSt.tcpConnectBind
   split
   · rename_i haddr
@@ -509,8 +509,8 @@ theorem RInvN.tcpConnectBind {m : NetSt} {att : List String} (h : RInvN m att) (
       cases r <;> exact this
   · exact h
 
-theorem RInvN.tcpConnect {n : NetSt} {att : List String} (h : RInvN n att) (now : Int) (name : String)
-    (target : Ep) (hh : Nat) : RInvN (n.tcpConnect now name target hh).1 att := by
+theorem RegInvN.tcpConnect {n : NetSt} {att : List String} (h : RegInvN n att) (now : Int) (name : String)
+    (target : Ep) (hh : Nat) : RegInvN (n.tcpConnect now name target hh).1 att := by
   rw [tcpConnect_unfold]
   cases hs0 : n.tcp? name with
   | none => exact h
@@ -518,7 +518,7 @@ theorem RInvN.tcpConnect {n : NetSt} {att : List String} (h : RInvN n att) (now 
     dsimp only
     -- stage 1: a closed socket is opened
     have hst : ∃ r0 : NetSt × List NEff, (if (!s0.isOpen) = true then n.tcpOpen now name target.isV4 else (n, [])) = r0
-        ∧ RInvN r0.1 att ∧ ∀ s, r0.1.tcp? name = some s → s.isOpen = true := by
+        ∧ RegInvN r0.1 att ∧ ∀ s, r0.1.tcp? name = some s → s.isOpen = true := by
       cases ho : s0.isOpen with
       | true => exact ⟨_, rfl, h, fun s hs => by simp at hs; rw [hs0] at hs; simp at hs; rw [← hs]; exact ho⟩
       | false =>
@@ -537,7 +537,7 @@ theorem RInvN.tcpConnect {n : NetSt} {att : List String} (h : RInvN n att) (now 
 
 /-! ### data path, constructors -/
 
-theorem RInvN.of_uframe {n n' : NetSt} {att : List String} (h : RInvN n att) (f : UFrame n n') : RInvN n' att := by
+theorem RegInvN.of_uframe {n n' : NetSt} {att : List String} (h : RegInvN n att) (f : UFrame n n') : RegInvN n' att := by
   have hu := ub_uf_same f.uv
   have htc : ∀ x, n'.tcp? x = n.tcp? x := fun x => by unfold NetSt.tcp?; rw [f.tcps]
   have ht := tb_tf_same (tv_of_tcps htc)
@@ -549,22 +549,22 @@ theorem RInvN.of_uframe {n n' : NetSt} {att : List String} (h : RInvN n att) (f 
   · rw [f.reg]; exact h.port
   · rw [f.cfg]; exact h.cfg
 
-theorem RInvN.udpSendTo {n : NetSt} {att : List String} (h : RInvN n att) (now : Int) (name : String)
-    (dst : Ep) (payload : List UInt8) : RInvN (n.udpSendTo now name dst payload).1 att := by
+theorem RegInvN.udpSendTo {n : NetSt} {att : List String} (h : RegInvN n att) (now : Int) (name : String)
+    (dst : Ep) (payload : List UInt8) : RegInvN (n.udpSendTo now name dst payload).1 att := by
   rw [udpSendTo_unfold]
   cases hu : n.udp? name with
   | none => exact h
   | some u0 =>
     dsimp only
-    have h1 : RInvN (n.setUdp name (u0.abortSend name).1) att :=
+    have h1 : RegInvN (n.setUdp name (u0.abortSend name).1) att :=
       h.of_uframe (UFrame.setUdp n name u0 _ hu (u0.abortSend_view name))
-    have h2 : RInvN (if (u0.abortSend name).1.bound.isDefault then
+    have h2 : RegInvN (if (u0.abortSend name).1.bound.isDefault then
         (n.setUdp name (u0.abortSend name).1).udpBind name {} else (n.setUdp name (u0.abortSend name).1, Ec.ok)).1 att := by
       split
       · exact h1.udpBind name {}
       · exact h1
-    have key : ∀ (rb : NetSt × Ec) (e : List NEff), RInvN rb.1 att →
-        RInvN (if (rb.2 != Ec.ok) = true then (rb.1, e, rb.2, 0) else rb.1.udpSendTo2 now name dst payload e).1 att := by
+    have key : ∀ (rb : NetSt × Ec) (e : List NEff), RegInvN rb.1 att →
+        RegInvN (if (rb.2 != Ec.ok) = true then (rb.1, e, rb.2, 0) else rb.1.udpSendTo2 now name dst payload e).1 att := by
       intro rb e hrb
       split
       · exact hrb
@@ -577,8 +577,8 @@ theorem fresh_iff (n : NetSt) (name : String) : n.fresh name = true ↔ n.udp? n
   unfold NetSt.fresh
   cases n.udp? name <;> cases n.tcp? name <;> simp
 
-theorem RInvN.udpNew {n : NetSt} {att : List String} (h : RInvN n att) (name node : String)
-    (hf : n.fresh name = true) : RInvN (n.udpNew name node) att := by
+theorem RegInvN.udpNew {n : NetSt} {att : List String} (h : RegInvN n att) (name node : String)
+    (hf : n.fresh name = true) : RegInvN (n.udpNew name node) att := by
   obtain ⟨hu0, ht0⟩ := (fresh_iff n name).mp hf
   have huv : ∀ x, (n.udpNew name node).uv x = if x = name then some (false, ({} : Ep), (none : Option Nat)) else n.uv x := by
     intro x; simp only [NetSt.udpNew, NetSt.uv, udp?_setUdp]; by_cases hx : x = name <;> simp [hx, UdpSock.view]
@@ -589,8 +589,8 @@ theorem RInvN.udpNew {n : NetSt} {att : List String} (h : RInvN n att) (name nod
   · rw [hu.1]; exact h.udp.new name hn.1
   · rw [hu.2]; exact h.fwd.new name hn.2 htn.2
 
-theorem RInvN.tcpNew {n : NetSt} {att : List String} (h : RInvN n att) (name node : String) (isAcc : Bool)
-    (hf : n.fresh name = true) : RInvN (n.tcpNew name node isAcc) att := by
+theorem RegInvN.tcpNew {n : NetSt} {att : List String} (h : RegInvN n att) (name node : String) (isAcc : Bool)
+    (hf : n.fresh name = true) : RegInvN (n.tcpNew name node isAcc) att := by
   obtain ⟨hu0, ht0⟩ := (fresh_iff n name).mp hf
   have htv : ∀ x, (n.tcpNew name node isAcc).tv x = if x = name then some (false, ({} : Ep), (none : Option Nat)) else n.tv x := by
     intro x; simp only [NetSt.tcpNew]; rw [tv_setTcp]; by_cases hx : x = name <;> simp [hx, TcpSock.view]
@@ -624,10 +624,10 @@ theorem ub_uf_set2 {n n' : NetSt} {src dst : String} {v1 v2 : Bool × Ep × Opti
   constructor <;> funext x <;> simp only [NetSt.ub_eq, NetSt.uf_eq, h, setS] <;>
     split <;> (try split) <;> simp
 
-theorem RInvN.of_moveEff {n n' : NetSt} {att : List String} {src dst : String} {v : Bool × Ep × Option Nat}
-    (h : RInvN n att) (e : MoveEff n n' src dst v) (hv : n.tv src = some v)
+theorem RegInvN.of_moveEff {n n' : NetSt} {att : List String} {src dst : String} {v : Bool × Ep × Option Nat}
+    (h : RegInvN n att) (e : MoveEff n n' src dst v) (hv : n.tv src = some v)
     (hf : n.fresh dst = true) :
-    RInvN n' (att.map (fun x => if x = src then dst else x)) := by
+    RegInvN n' (att.map (fun x => if x = src then dst else x)) := by
   obtain ⟨hu0, ht0⟩ := (fresh_iff n dst).mp hf
   obtain ⟨o, b, f⟩ := v
   have hu := ub_uf_same (uv_of_udps e.udps)
@@ -662,9 +662,9 @@ theorem rebindAll_eq_rebind (tbl : List (Ep × String)) (b : Ep) (src dst : Stri
     simp
   · simp [hb]
 
-theorem RInvN.of_moveEffU {n n' : NetSt} {att : List String} {src dst : String} {v : Bool × Ep × Option Nat}
-    (h : RInvN n att) (e : MoveEffU n n' src dst v) (hv : n.uv src = some v)
-    (hf : n.fresh dst = true) : RInvN n' att := by
+theorem RegInvN.of_moveEffU {n n' : NetSt} {att : List String} {src dst : String} {v : Bool × Ep × Option Nat}
+    (h : RegInvN n att) (e : MoveEffU n n' src dst v) (hv : n.uv src = some v)
+    (hf : n.fresh dst = true) : RegInvN n' att := by
   obtain ⟨hu0, ht0⟩ := (fresh_iff n dst).mp hf
   obtain ⟨o, b, f⟩ := v
   have ht := tb_tf_same (tv_of_tcps e.tcps)
@@ -721,10 +721,10 @@ theorem got_eq (n : NetSt) (peer : String) :
       = ((n.tv peer).map (fun v => !v.2.1.isDefault)).getD false := by
   simp [NetSt.tv, TcpSock.view, Function.comp_def]
 
-theorem RInvN.tcpAttach2 {m : NetSt} {att0 : List String} (hm : RInvN m att0) (peer : String)
+theorem RegInvN.tcpAttach2 {m : NetSt} {att0 : List String} (hm : RegInvN m att0) (peer : String)
     (bindEp : Ep) (cid k : Nat) (hmv : m.tv peer = some (true, ({} : Ep), some k))
     (hnd : bindEp.isDefault = false) (haddr : bindEp.addr ≠ "0.0.0.0") :
-    RInvN (m.tcpAttach2 peer bindEp cid)
+    RegInvN (m.tcpAttach2 peer bindEp cid)
       ((if (((m.tcpAttach2 peer bindEp cid).tv peer).map (fun v => !v.2.1.isDefault)).getD false
         then [peer] else []) ++ att0) := by
   have e := tcpAttach2_eff m peer bindEp cid
@@ -758,9 +758,9 @@ theorem RInvN.tcpAttach2 {m : NetSt} {att0 : List String} (hm : RInvN m att0) (p
     · rw [e.reg]; exact hm.port
     · rw [e.cfg]; exact hm.cfg
 
-theorem RInvN.tcpAttach {n : NetSt} {att : List String} (h : RInvN n att) (now : Int) (peer : String)
+theorem RegInvN.tcpAttach {n : NetSt} {att : List String} (h : RegInvN n att) (now : Int) (peer : String)
     (bindEp : Ep) (cid : Nat) (hnd : bindEp.isDefault = false) (haddr : bindEp.addr ≠ "0.0.0.0") :
-    RInvN (n.tcpAttach now peer bindEp cid).1
+    RegInvN (n.tcpAttach now peer bindEp cid).1
       ((if (((n.tcpAttach now peer bindEp cid).1.tcp? peer).map (fun p => !p.bound.isDefault)).getD false
         then [peer] else []) ++ att.filter (· != peer)) := by
   rw [got_eq, tcpAttach_nf]
@@ -786,23 +786,23 @@ theorem RInvN.tcpAttach {n : NetSt} {att : List String} (h : RInvN n att) (now :
     exact (h.tcpOpen now peer p0.isV4).tcpAttach2 peer bindEp cid _ (tcpOpen_tv_self n now peer p0.isV4 p0 hp) hnd haddr
 
 
-structure RInv (s : NS) : Prop where
+structure RegInv (s : NS) : Prop where
   udp  : PInv s.n.reg.udp s.n.ub []
   tcp  : PInv s.n.reg.tcp s.n.tb s.attached
   fwd  : FInv s.n.fwdTarget s.n.fwds.length s.n.uf s.n.tf
   port : 2000 ≤ s.n.reg.nextPort ∧ s.n.reg.nextPort ≤ 65534
   cfg  : s.n.cfg.WF
 
-theorem RInv.toN {s : NS} (h : RInv s) : RInvN s.n s.attached := ⟨h.udp, h.tcp, h.fwd, h.port, h.cfg⟩
-theorem RInvN.toR {s : NS} (h : RInvN s.n s.attached) : RInv s := ⟨h.udp, h.tcp, h.fwd, h.port, h.cfg⟩
+theorem RegInv.toN {s : NS} (h : RegInv s) : RegInvN s.n s.attached := ⟨h.udp, h.tcp, h.fwd, h.port, h.cfg⟩
+theorem RegInvN.toR {s : NS} (h : RegInvN s.n s.attached) : RegInv s := ⟨h.udp, h.tcp, h.fwd, h.port, h.cfg⟩
 
-theorem RInv.init (c : NetCfg) (hc : c.WF) : RInv (NS.init c) := by
+theorem RegInv.init (c : NetCfg) (hc : c.WF) : RegInv (NS.init c) := by
   refine ⟨?_, ?_, ?_, ⟨Nat.le_refl _, by show 2000 ≤ 65534; omega⟩, hc⟩
   · exact PInv.init
   · exact PInv.init
   · exact FInv.init
 
-theorem RInv.step {s : NS} (h : RInv s) (l : NLbl) : RInv (s.step l) := by
+theorem RegInv.step {s : NS} (h : RegInv s) (l : NLbl) : RegInv (s.step l) := by
   have hN := h.toN
   cases l with
   | uNew name node =>
@@ -811,13 +811,13 @@ theorem RInv.step {s : NS} (h : RInv s) (l : NLbl) : RInv (s.step l) := by
     · rename_i hf; exact (hN.udpNew name node hf).toR
     · exact h
   | uOpen name v4 =>
-    exact RInvN.toR (s := s.discardStep name (s.n.udpOpen name v4).1)
+    exact RegInvN.toR (s := s.discardStep name (s.n.udpOpen name v4).1)
       ((hN.of_closeEffU (udpClose_eff s.n name)).of_openEffU (udpOpen_eff s.n name v4) (udpClose_eff s.n name).closed)
-  | uBind name ep => exact RInvN.toR (s := { s with n := (s.n.udpBind name ep).1 }) (hN.udpBind name ep)
+  | uBind name ep => exact RegInvN.toR (s := { s with n := (s.n.udpBind name ep).1 }) (hN.udpBind name ep)
   | uClose name =>
-    exact RInvN.toR (s := s.discardStep name (s.n.udpClose name).1) (hN.of_closeEffU (udpClose_eff s.n name))
+    exact RegInvN.toR (s := s.discardStep name (s.n.udpClose name).1) (hN.of_closeEffU (udpClose_eff s.n name))
   | uDestroy name =>
-    exact RInvN.toR (s := s.discardStep name (s.n.udpDestroy name).1) (hN.of_destroyEffU (udpDestroy_eff s.n name))
+    exact RegInvN.toR (s := s.discardStep name (s.n.udpDestroy name).1) (hN.of_destroyEffU (udpDestroy_eff s.n name))
   | uMove src dst =>
     simp only [NS.step]
     split
@@ -826,29 +826,29 @@ theorem RInv.step {s : NS} (h : RInv s) (l : NLbl) : RInv (s.step l) := by
       cases hu : s.n.udp? src with
       | none => simp [hu] at hg
       | some u =>
-        exact RInvN.toR (s := { s with n := s.n.udpMove src dst, acc := _, out := _ })
+        exact RegInvN.toR (s := { s with n := s.n.udpMove src dst, acc := _, out := _ })
           (hN.of_moveEffU (udpMove_eff s.n src dst u hu) (uv_some_of_udp? hu) hg.1)
     · exact h
   | uSendTo now name dst payload =>
-    exact RInvN.toR (s := { s with n := (s.n.udpSendTo now name dst payload).1 }) (hN.udpSendTo now name dst payload)
+    exact RegInvN.toR (s := { s with n := (s.n.udpSendTo now name dst payload).1 }) (hN.udpSendTo now name dst payload)
   | uRecv name op =>
-    exact RInvN.toR (s := s.readStep name (s.n.udpAsyncRecv name op).1) (hN.of_uframe (udpAsyncRecv_frame _ _ _))
+    exact RegInvN.toR (s := s.readStep name (s.n.udpAsyncRecv name op).1) (hN.of_uframe (udpAsyncRecv_frame _ _ _))
   | uRecvNb name caps =>
-    exact RInvN.toR (s := s.readStep name (s.n.udpRecvNb name caps).1) (hN.of_uframe (udpRecvNb_frame _ _ _))
+    exact RegInvN.toR (s := s.readStep name (s.n.udpRecvNb name caps).1) (hN.of_uframe (udpRecvNb_frame _ _ _))
   | uWaitRead name hh =>
-    exact RInvN.toR (s := { s with n := (s.n.udpWaitRead name hh).1 }) (hN.of_uframe (udpWaitRead_frame _ _ _))
+    exact RegInvN.toR (s := { s with n := (s.n.udpWaitRead name hh).1 }) (hN.of_uframe (udpWaitRead_frame _ _ _))
   | uWaitWrite now name hh =>
-    exact RInvN.toR (s := { s with n := (s.n.udpWaitWrite now name hh).1 }) (hN.of_uframe (udpWaitWrite_frame _ _ _ _))
+    exact RegInvN.toR (s := { s with n := (s.n.udpWaitWrite now name hh).1 }) (hN.of_uframe (udpWaitWrite_frame _ _ _ _))
   | uSendWaitFired name ab =>
-    exact RInvN.toR (s := { s with n := (s.n.udpSendWaitFired name ab).1 }) (hN.of_uframe (udpSendWaitFired_frame _ _ _))
+    exact RegInvN.toR (s := { s with n := (s.n.udpSendWaitFired name ab).1 }) (hN.of_uframe (udpSendWaitFired_frame _ _ _))
   | uCancel name =>
-    exact RInvN.toR (s := { s with n := (s.n.udpCancel name).1 }) (hN.of_uframe (udpCancel_frame _ _))
+    exact RegInvN.toR (s := { s with n := (s.n.udpCancel name).1 }) (hN.of_uframe (udpCancel_frame _ _))
   | uSetDf name df =>
     simp only [NS.step]
     cases hu : s.n.udp? name with
     | none => exact h
     | some u =>
-      exact RInvN.toR (s := { s with n := s.n.setUdp name { u with df := df } })
+      exact RegInvN.toR (s := { s with n := s.n.setUdp name { u with df := df } })
         (hN.of_uframe (UFrame.setUdp s.n name u _ hu rfl))
   | deliver f p =>
     simp only [NS.step]
@@ -868,14 +868,14 @@ theorem RInv.step {s : NS} (h : RInv s) (l : NLbl) : RInv (s.step l) := by
     · rename_i hf; exact (hN.tcpNew name node isAcc hf).toR
     · exact h
   | tOpen now name v4 =>
-    exact RInvN.toR (s := { s with n := (s.n.tcpOpen now name v4).1, attached := s.attached.filter (· != name) })
+    exact RegInvN.toR (s := { s with n := (s.n.tcpOpen now name v4).1, attached := s.attached.filter (· != name) })
       (hN.tcpOpen now name v4)
-  | tBind name ep => exact RInvN.toR (s := { s with n := (s.n.tcpBind name ep).1 }) (hN.tcpBind name ep)
+  | tBind name ep => exact RegInvN.toR (s := { s with n := (s.n.tcpBind name ep).1 }) (hN.tcpBind name ep)
   | tClose now name =>
-    exact RInvN.toR (s := { s with n := (s.n.tcpClose now name).1, attached := s.attached.filter (· != name) })
+    exact RegInvN.toR (s := { s with n := (s.n.tcpClose now name).1, attached := s.attached.filter (· != name) })
       (hN.tcpClose now name)
   | tDestroy now name =>
-    exact RInvN.toR (s := { s with n := (s.n.tcpDestroy now name).1, attached := s.attached.filter (· != name) })
+    exact RegInvN.toR (s := { s with n := (s.n.tcpDestroy now name).1, attached := s.attached.filter (· != name) })
       (hN.of_destroyEff (tcpDestroy_eff s.n now name))
   | tMove src dst =>
     simp only [NS.step]
@@ -885,15 +885,15 @@ theorem RInv.step {s : NS} (h : RInv s) (l : NLbl) : RInv (s.step l) := by
       cases hu : s.n.tcp? src with
       | none => simp [hu] at hg
       | some t =>
-        exact RInvN.toR (s := { s with n := s.n.tcpMove src dst, attached := _ })
+        exact RegInvN.toR (s := { s with n := s.n.tcpMove src dst, attached := _ })
           (hN.of_moveEff (tcpMove_eff s.n src dst t hu) (tv_some_of_tcp? hu) hg.1)
     · exact h
   | tConnect now name target hh =>
-    exact RInvN.toR (s := { s with n := (s.n.tcpConnect now name target hh).1 }) (hN.tcpConnect now name target hh)
+    exact RegInvN.toR (s := { s with n := (s.n.tcpConnect now name target hh).1 }) (hN.tcpConnect now name target hh)
   | aListen name qs =>
-    exact RInvN.toR (s := { s with n := (s.n.accListen name qs).1 }) (hN.of_tframe (accListen_frame _ _ _))
+    exact RegInvN.toR (s := { s with n := (s.n.accListen name qs).1 }) (hN.of_tframe (accListen_frame _ _ _))
   | aClose now name =>
-    exact RInvN.toR (s := { s with n := (s.n.accClose now name).1, attached := s.attached.filter (· != name) })
+    exact RegInvN.toR (s := { s with n := (s.n.accClose now name).1, attached := s.attached.filter (· != name) })
       (hN.of_closeEff (accClose_eff s.n now name))
   | tAttach now peer acceptor cid =>
     simp only [NS.step]
@@ -905,7 +905,7 @@ theorem RInv.step {s : NS} (h : RInv s) (l : NLbl) : RInv (s.step l) := by
       · rename_i hg
         simp only [Bool.and_eq_true, Bool.not_eq_true'] at hg
         have haddr := hN.tcp.addr acceptor a.isOpen a.bound (tb_some (tv_some_of_tcp? ha)).1 hg.2
-        exact RInvN.toR (s := { s with n := _, attached := _ }) (hN.tcpAttach now peer a.bound cid hg.2 haddr)
+        exact RegInvN.toR (s := { s with n := _, attached := _ }) (hN.tcpAttach now peer a.bound cid hg.2 haddr)
       · exact h
   | tPatch name t' chans' =>
     simp only [NS.step]
@@ -916,18 +916,18 @@ theorem RInv.step {s : NS} (h : RInv s) (l : NLbl) : RInv (s.step l) := by
       split
       · rename_i hg
         have hv : t'.view = t.view := by simp [TcpSock.view, hg.1, hg.2.1, hg.2.2.1]
-        exact RInvN.toR (s := { s with n := _ })
+        exact RegInvN.toR (s := { s with n := _ })
           (hN.of_tframe ((TFrame.chans s.n chans').trans (TFrame.setTcp _ name t t' ht hv)))
       · exact h
 
-theorem RInv.run (c : NetCfg) (hc : c.WF) (ls : List NLbl) : RInv ((NS.init c).run ls) := by
-  suffices ∀ s, RInv s → RInv (s.run ls) from this _ (RInv.init c hc)
+theorem RegInv.run (c : NetCfg) (hc : c.WF) (ls : List NLbl) : RegInv ((NS.init c).run ls) := by
+  suffices ∀ s, RegInv s → RegInv (s.run ls) from this _ (RegInv.init c hc)
   induction ls with
   | nil => exact fun s h => h
   | cons l ls ih => exact fun s h => ih _ (h.step l)
 
 /-- a packet arriving at an attached forwarder reaches an open socket that holds this forwarder -/
-theorem RInv.deliver_open {s : NS} (h : RInv s) {f : Nat} {name : String} {u : UdpSock}
+theorem RegInv.deliver_open {s : NS} (h : RegInv s) {f : Nat} {name : String} {u : UdpSock}
     (hf : s.n.fwdTarget f = some name) (hu : s.n.udp? name = some u) :
     u.isOpen = true ∧ u.fwd = some f := by
   have huf := (ub_some (uv_some_of_udp? hu)).2
@@ -942,7 +942,7 @@ theorem RInv.deliver_open {s : NS} (h : RInv s) {f : Nat} {name : String} {u : U
     rw [this] at ho; simp at ho
 
 /-- a socket that holds a forwarder is open and the forwarder reaches it -/
-theorem RInv.udp_fwd {s : NS} (h : RInv s) {f : Nat} {name : String} {u : UdpSock}
+theorem RegInv.udp_fwd {s : NS} (h : RegInv s) {f : Nat} {name : String} {u : UdpSock}
     (hu : s.n.udp? name = some u) (hf : u.fwd = some f) :
     u.isOpen = true ∧ s.n.fwdTarget f = some name := by
   have huf := (ub_some (uv_some_of_udp? hu)).2
@@ -952,7 +952,7 @@ theorem RInv.udp_fwd {s : NS} (h : RInv s) {f : Nat} {name : String} {u : UdpSoc
   exact ⟨by simpa using h1, h.fwd.fu name u.isOpen f huf⟩
 
 /-- a closed socket holds no forwarder and no binding -/
-theorem RInv.udp_closed {s : NS} (h : RInv s) {name : String} {u : UdpSock}
+theorem RegInv.udp_closed {s : NS} (h : RegInv s) {name : String} {u : UdpSock}
     (hu : s.n.udp? name = some u) (hc : u.isOpen = false) : u.fwd = none ∧ u.bound = {} := by
   have hv := ub_some (uv_some_of_udp? hu)
   dsimp only at hv
